@@ -52,6 +52,7 @@ CFG = {
     "module": "Swat4.Properties.C17",
     "theorems": [
         "Swat4.C17.facts_config_wiring",
+        "Swat4.C17.facts_harness_settings_wiring",
         "Swat4.C17.accepted_is_routable",
         "Swat4.C17.routable_is_accepted",
         "Swat4.C17.accepted_iff_routable",
